@@ -177,6 +177,11 @@ def call_value(ev, fv, e, kwargs_ast, want):
         return construct(ev, fv, args, kw, e)
     if fv.ty.k == "fn":
         kind = fv.ty.a[0]
+        if kind == "field":
+            ev.u.assumed.add("a function stored in a field (DOO.delta: the default delta_init or the user's delta) is assumed to be a total, "
+                             "side-effect-free function returning a finite real; its value is arbitrary")
+            ev.need(fv.t != 0, "call-of-None", e)
+            return Val(fresh("fnres", R), REAL)
         if kind == "lib":
             return lib_call(ev, fv.t, args, kw, e, want)
         if kind == "module":
@@ -409,6 +414,11 @@ def spec_call(ev, n, e):
     if n == "is_class":
         v = ev.ev(e.args[0])
         return Val(z3.BoolVal(True), BOOL)
+    if n == "pos":
+        L = ev.ev(e.args[0])
+        x = ev.ev(e.args[1])
+        e0, el = ev.lkeys(L)
+        return Val(ev.u.get_arr(ev.st, "idx:" + e0, el)[L.t][x.t], INT)
     if n == "argmax_first":
         L = ev.ev(e.args[0])
         return Val(argmax_first(ev, ev.lelts(L), ev.llen(L)), INT)
